@@ -394,10 +394,10 @@ func diagnose(all []fsprog.Event) string {
 // ---- generation ------------------------------------------------------------
 
 func genProg(t *rapid.T, impl string) fsprog.Program {
-	l2 := impl == "mem" && ev.SwitchOn(swL2)
-	l3 := impl == "dir" && ev.SwitchOn(swL3)
-	k1 := impl == "dir" && ev.SwitchOn(swK1)
-	k2 := impl == "dir" && ev.SwitchOn(swK2)
+	l2 := impl == "mem" && models.KnownSwitch(swL2)
+	l3 := impl == "dir" && models.KnownSwitch(swL3)
+	k1 := impl == "dir" && models.KnownSwitch(swK1)
+	k2 := impl == "dir" && models.KnownSwitch(swK2)
 	p := fsprog.Program{Impl: impl}
 	dirs := []string{"d", "e"}[:rapid.IntRange(1, 2).Draw(t, "ndirs")]
 	names := []string{"a", "b", "c"}[:rapid.IntRange(2, 3).Draw(t, "nnames")]
